@@ -247,6 +247,13 @@ def explore(ctx, tier, search=False):
     order = list(F.FIXED_REQUESTS)
     history_case(ctx, F.FIXED_SPEC, order, "fixed-all")
     history_case(ctx, F.FIXED_SPEC, order[::-1], "fixed-all")
+    # the same request again on the same application, also under another response kind: whatever a request leaves
+    # behind (parsed constraints, templates, buffers) must not reach the next one
+    history_case(ctx, F.FIXED_SPEC, order + order, "fixed-all-twice")
+    for url in order:
+        if "?" in url and (tier != "quick" or "(" in url):
+            other = url.replace(".dods?", ".dds?") if ".dods?" in url else url.replace(".dds?", ".dods?").replace(".ascii?", ".dods?")
+            history_case(ctx, F.FIXED_SPEC, [url, other, url], "fixed-thrice")
     for _ in range(6 if tier == "quick" else 60):
         history_case(ctx, F.FIXED_SPEC, [rng.choice(F.FIXED_REQUESTS) for _ in range(rng.randint(2, 12))], "fixed")
     # lazy sequences (IterData; the served data object is itself a little pipeline: stream, filters, maps, slices):
